@@ -7,7 +7,7 @@
    The vocabulary of the first section (collector, guard, branch, store_site,
    product_shape) is what the PREBUILD hook of py/props/c11.py emits into
    Gen/MpShape.v after reading the CURRENT emg3d sources with ast. *)
-From Coq Require Import List Arith Bool String Ascii ZArith.
+From Coq Require Import List Arith Bool String Ascii ZArith DecimalString.
 Import ListNotations.
 
 (* ------------------------------------------------------------------ *)
@@ -83,17 +83,44 @@ Inductive product_shape : Type :=
 Definition is_product (p : product_shape) : bool :=
   match p with ProdSourcesFrequencies => true | ProdOther _ => false end.
 
-(* File name pattern of Simulation._data_or_file: a list of pieces. *)
-Inductive fpiece : Type := PLit (s : string) | PWhat | PSource | PFrequency.
+(* File name pattern of Simulation._data_or_file: a list of pieces.
+   PSource / PFrequency: the key itself (str(key));
+   PSourceIdx / PFrequencyIdx: list(survey.<dict>.keys()).index(key), in decimal. *)
+Inductive fpiece : Type :=
+| PLit (s : string) | PWhat | PSource | PFrequency | PSourceIdx | PFrequencyIdx.
 
-Fixpoint render (ps : list fpiece) (what src freq : string) : string :=
+(* str(n) for a non-negative int *)
+Definition dec (n : nat) : string := NilEmpty.string_of_uint (Nat.to_uint n).
+
+Fixpoint render (ps : list fpiece) (what src freq : string) (isrc ifreq : nat) : string :=
   match ps with
   | [] => EmptyString
-  | PLit s :: r => String.append s (render r what src freq)
-  | PWhat :: r => String.append what (render r what src freq)
-  | PSource :: r => String.append src (render r what src freq)
-  | PFrequency :: r => String.append freq (render r what src freq)
+  | PLit s :: r => String.append s (render r what src freq isrc ifreq)
+  | PWhat :: r => String.append what (render r what src freq isrc ifreq)
+  | PSource :: r => String.append src (render r what src freq isrc ifreq)
+  | PFrequency :: r => String.append freq (render r what src freq isrc ifreq)
+  | PSourceIdx :: r => String.append (dec isrc) (render r what src freq isrc ifreq)
+  | PFrequencyIdx :: r => String.append (dec ifreq) (render r what src freq isrc ifreq)
   end.
+
+(* list.index (first position; the length if absent -- Python raises then) *)
+Fixpoint index_of (k : string) (l : list string) : nat :=
+  match l with
+  | [] => O
+  | x :: r => if String.eqb x k then O else S (index_of k r)
+  end.
+
+(* the hand-over file of (source, frequency) in a survey *)
+Definition fname_of (pattern : list fpiece) (what : string) (sources freqs : list string)
+           (k : string * string) : string :=
+  render pattern what (fst k) (snd k) (index_of (fst k) sources) (index_of (snd k) freqs).
+
+(* emg3d before the fix: f"{what}_{source}_{frequency}.h5" *)
+Definition fname_unfixed_pattern : list fpiece :=
+  [PWhat; PLit "_"; PSource; PLit "_"; PFrequency; PLit ".h5"].
+(* after the fix: f"{what}_{isrc}_{ifreq}.h5" *)
+Definition fname_fixed_pattern : list fpiece :=
+  [PWhat; PLit "_"; PSourceIdx; PLit "_"; PFrequencyIdx; PLit ".h5"].
 
 (* ------------------------------------------------------------------ *)
 (* The pool                                                            *)
